@@ -889,7 +889,8 @@ class Extractor:
                     cl += ' requires ' + ', '.join(self._subst(x.text) for x in sp.requires)
                 if sp.ensures:
                     cl += ' ensures ' + ', '.join(self._subst(x.text) for x in sp.ensures)
-                edits.append(Edit(toks[k0].start, toks[k1].end, hdr + cl + (' {' if wrap else ''), ('inj', 'closure-contract', sp.src, 'closure')))
+                clabel = (sp.ensures[0].label if sp.ensures else (sp.requires[0].label if sp.requires else 'closure-contract'))
+                edits.append(Edit(toks[k0].start, toks[k1].end, hdr + cl + (' {' if wrap else ''), ('inj', clabel, sp.src, 'closure')))
                 if wrap:
                     edits.append(Edit(toks[b1].end, toks[b1].end, ' }', ('gen', 'R10')))
                 self.log_rule('R10', relfile, toks[k0].line, 'closure %d of %s annotated' % (n_, path))
